@@ -27,6 +27,30 @@ class Entry:
         self.thorough = list(thorough) if thorough is not None else list(quick)
         self.domain = domain
         self.tags = set(tags)
+        # the quick tier always includes, for every numeric position of the configuration, a configuration reaching the smallest
+        # value any thorough configuration has there (minimum legal widths / counts / constants are where special cases live)
+        def flat(c):
+            out = []
+            for x in (c if isinstance(c, (tuple, list)) else (c,)):
+                if isinstance(x, (tuple, list)):
+                    out.append(len(x))
+                    out.extend(flat(x))
+                elif isinstance(x, bool) or not isinstance(x, int):
+                    out.append(None)
+                else:
+                    out.append(x)
+            return out
+        fq = [flat(c) for c in self.quick]
+        for c in self.thorough:
+            f = flat(c)
+            for i, v in enumerate(f):
+                if v is None:
+                    continue
+                cur = [g[i] for g in fq if len(g) > i and g[i] is not None]
+                if cur and v < min(cur) and c not in self.quick:
+                    self.quick.append(c)
+                    fq.append(f)
+                    break
 
     def configs(self, tier):
         return self.thorough if tier == 'thorough' else self.quick
@@ -343,8 +367,8 @@ def b_bcd(parent, cfg, mk):
     return [A], [R]
 
 
-add('BinaryToBCD', 'C07', b_bcd, lambda c, v: [bcd(v[0], c[1] // 4)], [(4, 8), (7, 12), (8, 12), (8, 8), (10, 16)],
-    [(4, 8), (7, 12), (8, 12), (8, 8), (10, 16), (4, 4), (5, 8), (12, 16), (13, 16), (14, 20), (3, 4)])
+add('BinaryToBCD', 'C07', b_bcd, lambda c, v: [bcd(v[0], c[1] // 4)], [(4, 8), (7, 12), (8, 12), (8, 8), (10, 16), (3, 4), (2, 4), (1, 4), (2, 8)],
+    [(4, 8), (7, 12), (8, 12), (8, 8), (10, 16), (4, 4), (5, 8), (12, 16), (13, 16), (14, 20), (3, 4), (2, 4), (1, 4), (2, 8), (1, 8), (3, 12)])
 
 
 # --------------------------------------------------------------------------- C08 logic / selection / comparison
